@@ -396,6 +396,9 @@ class Guard(Fetched):
         # declared = an attribute of the node, or a parameter the master declares at this path (whatever was extracted)
         kids = master_kids(case["m"], path) or []
         declared = name in fields_of(nd) or any(n[1] == name and not (n[5] if n[0] == "d" else n[4]) for n in kids)
+        # the guard does not depend on the value assigned: None, the value users assign most (oracle only)
+        s0 = guard_obs(lambda: setattr(nd, name, None), _ASSIGN)
+        path, nd = self.node(w, idx)
         s1 = guard_obs(lambda: setattr(nd, name, "probe"), _ASSIGN)
         keys_s = [k for k in fields_of(nd)] if s1 == ["ok"] else []
         path, nd = self.node(w, idx)
@@ -406,7 +409,7 @@ class Guard(Fetched):
                      guard_obs(lambda: setattr(nd, name, None), _ASSIGN),
                      [k for k in fields_of(nd)]]
         self.side[key] = {"p": self.cd.wire(p), "i": idx}
-        return {"path": path, "declared": declared, "g": canon([s1, i1, after, keys_s])}
+        return {"path": path, "declared": declared, "g": canon([s1, i1, after, keys_s]), "s0": canon(s0)}
 
     def requests(self, case, o):
         s = self.side.get(json.dumps(case, sort_keys=True))
@@ -425,7 +428,7 @@ class Guard(Fetched):
         if g[2]:
             g[2] = [g[2][0], g[2][1], [k for k in g[2][2] if not dunder(k)]]
         g[3] = [k for k in g[3] if not dunder(k)]
-        return {"path": o["path"], "declared": o["declared"], "g": g}
+        return {"path": o["path"], "declared": o["declared"], "g": g, "s0": o.get("s0")}
 
     def prop(self, case, o):
         if not isinstance(o, dict):
@@ -444,6 +447,8 @@ class Guard(Fetched):
         else:
             if s1 != ["refuse", full]:
                 return "assignment to the undeclared name %r: %r" % (full, s1)
+            if o.get("s0") is not None and o["s0"] != ["refuse", full]:
+                return "assignment of None to the undeclared name %r: %r" % (full, o["s0"])
             if i1 != ["ok"]:
                 return "__inject__ of the fresh name %r: %r" % (full, i1)
             if after[0] != ["refuse", full]:
